@@ -721,7 +721,7 @@ def _docs(repo):
     opt_md = open(os.path.join(repo, "doc", "command-options.md")).read()
     lines = opt_md.split("\n")
     # equivalence list: bullets after "equivalent to respective setting tags"
-    pairs, doc_flags = [], []
+    pairs, doc_flags, pair_values = [], [], []
     i = 0
     while i < len(lines) and "equivalent to respective setting tags" not in lines[i]:
         i += 1
@@ -747,17 +747,19 @@ def _docs(repo):
         flags = [norm_flag(f) for f in re.findall(r"`(-[^`]+)`", m.group(1))]
         tg = []
         for t in re.findall(r"`([^`]+)`", m.group(2)):
-            t = t.split("=")[0].strip()
+            t, _, val = t.partition("=")
+            t = t.strip()
             if not re.fullmatch(r"[A-Z][A-Z0-9_]*", t):
                 raise TranslateError("cannot read tag in bullet: %s" % b)
-            tg.append(t.lower())
+            tg.append((t.lower(), val.strip() or None))
         if not tg:
             raise TranslateError("no tag in bullet: %s" % b)
         for f in flags:
             if f not in doc_flags:
                 doc_flags.append(f)
-            for t in tg:
+            for t, val in tg:
                 pairs.append((f, t))
+                pair_values.append((f, t, val))
     heading_flags = []
     for line in lines:
         if re.match(r"^#{2,4} ", line):
@@ -767,7 +769,7 @@ def _docs(repo):
                         f = norm_flag(tok)
                         if f not in heading_flags:
                             heading_flags.append(f)
-    return doc_tags, pairs, doc_flags, heading_flags
+    return doc_tags, pairs, doc_flags, heading_flags, pair_values
 
 
 # --------------------------------------------------------------------------
@@ -810,7 +812,7 @@ def build_table(repo="/repo"):
     _check_no_stale(prog)
 
     argrows, calcs = _argparse(repo)
-    doc_tags, doc_pairs, doc_flags, heading_flags = _docs(repo)
+    doc_tags, doc_pairs, doc_flags, heading_flags, doc_pair_values = _docs(repo)
 
     # name spaces
     tags = []
@@ -891,7 +893,7 @@ def build_table(repo="/repo"):
     return {"tags": tags, "code_tags": code_tags, "keys": keys, "attrs": attrs, "dests": dests, "strs": strs, "fns": fns, "flags": flags,
             "defaults": defaults, "setters": setters, "parse_rules": parse_rules, "opt_rules": opt_rules, "prog": prog,
             "argparse": argrows, "calculators": calcs, "doc_tags": doc_tags, "doc_pairs": doc_pairs, "doc_flags": doc_flags,
-            "heading_flags": heading_flags}
+            "heading_flags": heading_flags, "doc_pair_values": doc_pair_values}
 
 
 # --------------------------------------------------------------------------
